@@ -20,7 +20,11 @@ NOT_DECIDED = "atomicity is trusted to std::sync::atomic; the number of calls a 
 def run(ck, models, tier, ws):
     ck.decided, ck.not_decided = DECIDED, NOT_DECIDED
     ck.trusted += ["rustc macro expansion and MIR", "std::sync::atomic RMW operations are atomic", "std models"]
-    tm = models[0]
+    for tm in models:
+        run_one(ck, tm, tier, ws)
+
+
+def run_one(ck, tm, tier, ws):
     hm = mac.get(ws, tm.facts, tier)
     n_arms = 0
     for mod, d in hm.modules("fake"):
